@@ -41,10 +41,33 @@ func emitEq(a, b cfgSpec) {
 	}
 	eqSeen[k] = true
 	r := 0
-	if a.build().Equal(b.build()) {
+	x, y := a.build(), b.build()
+	if x.Equal(y) {
 		r = 1
 	}
 	emitLine("EQ\t%s\t%s\t%d", a.enc(), b.enc(), r)
+	// Equal is a pure function in the model: it must leave both arguments as they were (address, timeouts, and the
+	// routes in their order) - a live mux may be looking at them
+	if ax, by := readBack(x, a), readBack(y, b); ax != a.enc() || by != b.enc() {
+		emitLine("MUT\t%s\t%s\t%s\t%s", a.enc(), b.enc(), ax, by)
+	}
+}
+
+// readBack encodes a *Config after a call, through its exported fields; route names (unexported) are taken from the
+// spec by path (falling back to position), so a reordering shows as a different encoding.
+func readBack(c *httpserver.Config, spec cfgSpec) string {
+	out := cfgSpec{Addr: c.ListenAddr, Drain: int64(c.DrainTimeout), Read: int64(c.ReadTimeout), Write: int64(c.WriteTimeout),
+		Idle: int64(c.IdleTimeout)}
+	for i, r := range c.Routes {
+		nm := ""
+		if i < len(spec.Routes) && spec.Routes[i].Path == r.Path {
+			nm = spec.Routes[i].Name
+		} else {
+			nm = "@moved"
+		}
+		out.Routes = append(out.Routes, rt{nm, r.Path})
+	}
+	return out.enc()
 }
 
 // emitRouteEq: the public Route.Equal on a pair of routes (RQ line).
